@@ -18,6 +18,25 @@ theorem all_sink_sites_covered : NA.C17.uncovered = [] := by decide
 /-- The sites through which F-C17 flows are exactly the ones the table lists under `fc17`. -/
 theorem fc17_sites_exact : NA.C17.taintedSites = NA.C17.fc17Sites := by decide
 
+/-- Every sink kind the property names occurs among the regenerated sites: session logs
+(`.login/.config/.change/.cmp`), run log, history file, status file, stdout, stderr. -/
+theorem every_sink_kind_listed : NA.C17.kindsPresent = [1, 2, 3, 4, 5, 6] := by decide
+
+/-- Every failure kind of the source (a call whose error text embeds the request URL:
+`client.Get/Do/PostForm`, `http.NewRequest`, `url.Parse`) is mapped to a failure kind of the run
+model, and only the URL of the PAN-OS requests carries secrets. -/
+theorem all_error_sources_classified : NA.C17.unclassifiedSources = [] := by decide
+
+/-- **Flow model**: for every failure kind and every sink its error text reaches, the secrets of
+the URL are redacted there (`passRE` / `apiRE` are the only sanitisers the translator knows) — or the
+sink is the F-C17 site. -/
+theorem error_flows_redacted :
+    (NA.Gen.Sinks.errFlows.all fun f => !f.raw || NA.C17.fc17Sites.contains f.site) = true := by decide
+
+/-- … and the raw flows are exactly one: the transport error of a PAN-OS request
+(`panos.httpGet: s.client.Get(uri)`) reaching `device.ApproveOrCompare: errlog.Abort("%v", err)`. -/
+theorem raw_flows_exact : NA.C17.rawFlows = [(31414, 2102085953)] := by decide
+
 /-- The lemma behind every class of the table (checked names). -/
 def coverLemma : Cover → Lean.Name
   | .clean => ``all_sink_sites_covered
@@ -26,10 +45,19 @@ def coverLemma : Cover → Lean.Name
   | .maskError => ``mask_error_independent
   | .maskApi => ``mask_api_uri_independent
   | .nsxLogin => ``nsx_login_log_independent
-  | .deviceOutput => ``ssh_log_is_device_output_only
+  | .deviceOutput => ``ssh_session_independent
   | .copyOfRunLog => ``sinks_independent
+  | .wrapper => ``all_sink_sites_covered
   | .fc17 => ``sinks_independent_counterexample
 
-def obligations : List Lean.Name := [``all_sink_sites_covered, ``fc17_sites_exact]
+/-- The theorem of the run model behind every failure kind. -/
+def failureLemma : FailureKind → Lean.Name
+  | .panosGet => ``keygen_independent           -- keygen: masked; later requests: ``sinks_independent_partial / F-C17
+  | .panosAddrParse => ``keygen_independent
+  | .nsxLoginPost => ``nsx_sinks_independent
+  | .nsxRequest => ``nsx_sinks_independent
+
+def obligations : List Lean.Name := [``all_sink_sites_covered, ``fc17_sites_exact, ``every_sink_kind_listed,
+  ``all_error_sources_classified, ``error_flows_redacted, ``raw_flows_exact]
 
 end NA.C17Sites
